@@ -131,6 +131,13 @@ func familyDiscovery(t *testing.T) {
 			for _, o := range script {
 				if o.kind == "ok" {
 					outs = append(outs, M{"k": "ok", "doc": o.doc, "dur": int64(o.dur), "issuerEmpty": o.issuerEmpty, "noES": o.noES})
+				} else if pres, isDoc := presentMembers[o.kind]; isDoc {
+					// a 200 answer that decodes: the model is told which members it carries and decides itself whether that is metadata
+					docID := ""
+					if o.kind == "noissuer" || o.kind == "noauth" || o.kind == "notoken" || o.kind == "nojwks" {
+						docID = fmt.Sprintf("stale%d", len(outs))
+					}
+					outs = append(outs, M{"k": "doc", "doc": docID, "present": pres, "dur": int64(o.dur), "kind": o.kind})
 				} else {
 					outs = append(outs, M{"k": "fail", "dur": int64(o.dur), "kind": o.kind})
 				}
@@ -373,6 +380,14 @@ func familyDiscovery(t *testing.T) {
 // 200 answers that are JSON but not provider metadata (OpenID Connect Discovery 1.0 section 3 requires issuer,
 // authorization_endpoint, token_endpoint and jwks_uri)
 var incompleteKinds = []string{"emptyobj", "jsonnull", "starting", "issueronly", "noissuer", "noauth", "notoken", "nojwks"}
+
+var presentMembers = map[string][]string{
+	"emptyobj": {}, "jsonnull": {}, "starting": {}, "issueronly": {"issuer"},
+	"noissuer": {"authorization_endpoint", "token_endpoint", "jwks_uri", "end_session_endpoint", "revocation_endpoint"},
+	"noauth":   {"issuer", "token_endpoint", "jwks_uri", "end_session_endpoint", "revocation_endpoint"},
+	"notoken":  {"issuer", "authorization_endpoint", "jwks_uri", "end_session_endpoint", "revocation_endpoint"},
+	"nojwks":   {"issuer", "authorization_endpoint", "token_endpoint", "end_session_endpoint", "revocation_endpoint"},
+}
 
 func docJSON(doc string, issuerEmpty, noES bool) string {
 	base := "https://" + doc + ".idp.test"
